@@ -1126,6 +1126,10 @@ class Interp:
             return BoundExt(v, name)
         if isinstance(v, Shape):
             return Unk('shape attribute', e)
+        if isinstance(v, _Interp1d):
+            if name in ('x', 'y'):
+                return getattr(v, name)
+            return Unk('attribute %s of an interp1d object' % name, e)
         if isinstance(v, (GenList, _Repeat)):
             return BoundExt(v, name)
         if isinstance(v, (list, dict, str, tuple)):
@@ -1804,6 +1808,9 @@ class Interp:
                 return Unk('is_equivalent on symbolic units', e)
             if name == 'to_string':
                 return Unk('unit string', e)
+            if name == 'diagonal' and not args and not kw and recv.ndim == 2 and recv.dims[0] and recv.dims[1] == recv.dims[0] + "'" and recv.mask is None:
+                # out[i] = a[i, i] : the primed copy of the axis is identified with the axis
+                return Arr((recv.dims[0],), alg.relabel(recv.poly, recv.dims[1], recv.dims[0]), unit=recv.unit)
             if name == 'diagonal':
                 return Unk('diagonal', e)
             if name == 'reshape':
@@ -1861,8 +1868,14 @@ class _Interp1d:
         lab = self.x.dims[0]
         xs = _strip_unit(self.x)
         qs = _strip_unit(q)
+        qdims = list(q.dims)
+        for k_, d_ in enumerate(qdims):
+            if d_ is not None and d_ in self.y.dims[:-1]:
+                # the query runs over an axis the table also has: the result has both (outer product); the query's copy is primed
+                qs = alg.relabel(qs, d_, d_ + "'")
+                qdims[k_] = d_ + "'"
         extra = [C('%s=%s' % kv) for kv in self.opts]
-        dims = tuple(self.y.dims[:-1]) + tuple(q.dims)
+        dims = tuple(self.y.dims[:-1]) + tuple(qdims)
         ys = _strip_unit(self.y) if self.y.unit is not None else self.y.poly
         return Arr(dims, _linear_fn('lininterp', qs, lab, xs, ys, extra), unit=num(1))
 
